@@ -48,6 +48,10 @@ structure LayerCfg where
   maxResp : Nat := 0
   /-- connlimit: `maxConnections` -/
   limit : Nat := 1
+  /-- buffer: `Retry("IsNetworkError() && Attempts() <= 2")` -/
+  retry : Bool := false
+  /-- the layer's Verbose / Debug / Logger options are switched on (logging only: no effect on the request or response path) -/
+  verbose : Bool := false
   /-- ratelimit: the rate period in milliseconds (the harness uses average = burst = 1 for a limiter driven to its limit) -/
   periodMs : Nat := 1000
   deriving DecidableEq, Repr, Inhabited
@@ -211,6 +215,25 @@ def relayHeaderCalls (l : LayerCfg) (r : Result) : Result :=
       | none => { r with explicit := true }
   | _ => r
 
+/-- `IsNetworkError()` of `buffer/threshold.go`: the recorded response code is 502 or 504 -/
+def netErr (status : Nat) : Bool := status == 502 || status == 504
+
+/-- a buffer configured with the retry predicate -/
+def retryBuf (l : LayerCfg) : Bool :=
+  match l.kind with
+  | .buffer => l.retry
+  | _ => false
+
+/-- `buffer.ServeHTTP`'s loop repeats the attempt iff the connection was not hijacked, no write failed and the predicate
+`IsNetworkError() && Attempts() <= 2` holds (a result without explicit status carries 200 here, never a network error). -/
+def retryable (l : LayerCfg) (r : Result) : Bool :=
+  retryBuf l && !r.hijacked && !overflows l r.resp.body.length && netErr r.resp.status
+
+/-- stateless view of the retry loop: every attempt of the same request runs the same inner stack and handler script and ends
+the same way, so attempts 1 and 2 are retried, attempt 3 is written out (`Attempts() <= 2` fails): three times the invocations. -/
+def retryMul (l : LayerCfg) (r : Result) : Result :=
+  if retryable l r then { r with invoked := 3 * r.invoked } else r
+
 /-- What a passing layer does with the result of `next` once it returns. -/
 def post (l : LayerCfg) (r : Result) : Result :=
   if r.hijacked then r
@@ -221,7 +244,7 @@ def serve : List LayerCfg → (Req → Script) → Req → Caps → Result
   | [], h, req, c => runHandler (h req) c
   | l :: ls, h, req, c =>
     if intervenes l req then ⟨interventionResp l, 0, none, false, false, [], true⟩
-    else post l (serve ls h req (wrapCaps l.kind c))
+    else post l (retryMul l (serve ls h req (wrapCaps l.kind c)))
 
 /-- The stack served by `net/http` (outermost layer first). -/
 def serveStack (stack : List LayerCfg) (h : Req → Script) (req : Req) : Result :=
@@ -235,8 +258,6 @@ currently inside (`connections[token]`), for a ratelimit the tokens left in the 
 `panic(http.ErrAbortHandler)`: the panic unwinds through every layer (none recovers); the only code that still runs is
 deferred code — `defer cl.release(token, amount)` in `connlimit/connlimit.go:78`.  A consumed rate token is not given back. -/
 
-abbrev SLayer := LayerCfg × Nat
-
 /-- effective configuration of a layer in its current state -/
 def eff (l : LayerCfg) (n : Nat) : LayerCfg :=
   match l.kind with
@@ -244,7 +265,13 @@ def eff (l : LayerCfg) (n : Nat) : LayerCfg :=
   | .ratelimit => { l with tripped := decide (n = 0) }
   | _ => l
 
-def effStack (sl : List SLayer) : List LayerCfg := sl.map fun p => eff p.1 p.2
+/-- state of the first layer (missing entries count as 0) -/
+def hd0 (st : List Nat) : Nat := st.headD 0
+
+/-- the stack with its state (one number per layer, by position) -/
+def effStack : List LayerCfg → List Nat → List LayerCfg
+  | [], _ => []
+  | l :: ls, st => eff l (hd0 st) :: effStack ls st.tail
 
 /-- state change on admission: `acquire` adds the connection, `consumeRates` takes a token -/
 def enter : Kind → Nat → Nat
@@ -263,17 +290,38 @@ inductive Outcome where
   | aborted (invoked : Nat)
   deriving DecidableEq, Repr
 
-/-- One request through the stack in its current state; `abort`: the handler ends by panicking. -/
-def serveSt : List SLayer → (Req → Script) → Req → Bool → Caps → Outcome × List SLayer
-  | [], h, req, abort, c => (if abort then .aborted 1 else .served (runHandler (h req) c), [])
-  | (l, n) :: ls, h, req, abort, c =>
-    if intervenes (eff l n) req then (.served ⟨interventionResp (eff l n), 0, none, false, false, [], true⟩, (l, n) :: ls)
+def Outcome.addInvoked : Outcome → Nat → Outcome
+  | .served r, k => .served { r with invoked := r.invoked + k }
+  | .aborted i, k => .aborted (i + k)
+
+def Outcome.retryableBy (l : LayerCfg) : Outcome → Bool
+  | .served r => retryable l r
+  | .aborted _ => false
+
+/-- One request through the stack in its current state; `abort`: the handler ends by panicking.  A retrying buffer runs the
+inner stack again *in the state the previous attempt left* (attempts 1 and 2 may be retried, attempt 3 is final). -/
+def serveSt : List LayerCfg → List Nat → (Req → Script) → Req → Bool → Caps → Outcome × List Nat
+  | [], _, h, req, abort, c => (if abort then .aborted 1 else .served (runHandler (h req) c), [])
+  | l :: ls, st, h, req, abort, c =>
+    let n := hd0 st
+    if intervenes (eff l n) req then (.served ⟨interventionResp (eff l n), 0, none, false, false, [], true⟩, n :: st.tail)
     else
-      let r := serveSt ls h req abort (wrapCaps l.kind c)
-      (match r.1 with
+      let c' := wrapCaps l.kind c
+      let a1 := serveSt ls st.tail h req abort c'
+      let fin : Outcome × List Nat :=
+        if a1.1.retryableBy l then
+          let a2 := serveSt ls a1.2 h req abort c'
+          let k1 := match a1.1 with | .served x => x.invoked | .aborted k => k
+          if a2.1.retryableBy l then
+            let a3 := serveSt ls a2.2 h req abort c'
+            let k2 := match a2.1 with | .served x => x.invoked | .aborted k => k
+            (a3.1.addInvoked (k1 + k2), a3.2)
+          else (a2.1.addInvoked k1, a2.2)
+        else a1
+      (match fin.1 with
         | .served x => .served (post l x)
         | .aborted k => .aborted k,
-       (l, leave l.kind (enter l.kind n)) :: r.2)
+       leave l.kind (enter l.kind n) :: fin.2)
 
 /-! ### canonical output used by the driver -/
 
